@@ -174,6 +174,10 @@ pub fn culprits_for(e: &qrlew::expr::Expr, input: &DataType, null_result: bool) 
         if let Some(c) = out.iter().find(|c| c.starts_with("cast_as_text of a nullable argument")) {
             return vec![c.clone()];
         }
+    } else if out.iter().any(|c| !c.starts_with("cast_as_text of a nullable argument")) {
+        // the lost nullability of CAST(x AS TEXT) only explains a NULL in a non-optional column;
+        // a non-NULL value outside the declared type has another cause when one is present
+        out.retain(|c| !c.starts_with("cast_as_text of a nullable argument"));
     }
     for p in priority {
         if let Some(c) = out.iter().find(|c| c.starts_with(p)) {
